@@ -167,8 +167,10 @@ def evaluate_custom(scripts, drivers):
                     pr = net.parse_frame(a.reply)
                     app = pr.app if (pr is not None and pr.app) else None
                 masked.append((a.kind if a.kind == "P" else "ok", mask_app(req, app, tcp)))
-                ra = ("R", runner.DATE_RE.sub(b"\nDate: X\n", a.reply)) if a.kind == "R" else (a.kind,)
-                rb = ("R", runner.DATE_RE.sub(b"\nDate: X\n", b.reply)) if b.kind == "R" else (b.kind,)
+                nf = lambda r: tuple(runner.DATE_RE.sub(b"\nDate: X\n", x) if isinstance(x, (bytes, bytearray)) else x
+                                     for x in net.norm_frame(r))
+                ra = ("R",) + nf(a.reply) if a.kind == "R" else (a.kind,)
+                rb = ("R",) + nf(b.reply) if b.kind == "R" else (b.kind,)
                 if ra != rb:
                     issues.append({"kind": "correspondence", "script": Script(s.cfg, [s.frames[fi]], s.tag), "frame": 0,
                                    "driver": dname, "impl": a.short(), "model": b.short()})
